@@ -309,6 +309,72 @@ Lemma csubst_ext : forall s sv phi phi', (forall c, bchoice c -> phi c = phi' c)
   forall c, bchoice c -> csubst s sv phi c = csubst s sv phi' c.
 Proof. intros s sv phi phi' E c Hc. unfold csubst. apply E. apply sch_bchoice. exact Hc. Qed.
 
+(** the same for a substitution object: pairs (variable, replacement); a level
+    is replaced iff its variable is listed *)
+Definition psch (s : snap) (pairs : list (nat * ref)) (c : nat -> nat) : nat -> nat :=
+  fun l => match nth_error (s_l2v s) l with
+           | Some v => match assoc_nat pairs v with
+                       | Some r => if dfun s r c then 0 else 1
+                       | None => c l
+                       end
+           | None => c l
+           end.
+
+Definition psubst (s : snap) (pairs : list (nat * ref)) (phi : cfun) : cfun :=
+  fun c => phi (psch s pairs c).
+
+Definition pairs_ok (s : snap) (pairs : list (nat * ref)) : Prop :=
+  forall v r, In (v, r) pairs -> ref_ok s r.
+
+Lemma assoc_nat_In : forall (A : Type) (l : list (nat * A)) k x, assoc_nat l k = Some x -> In (k, x) l.
+Proof.
+  intros A l k x. induction l as [|[a b] r IH]; simpl; [discriminate|].
+  destruct (Nat.eqb_spec a k) as [->|Hne]; intros E; [inversion E; subst; left; reflexivity | right; auto].
+Qed.
+
+Lemma psch_bchoice : forall s pairs c, bchoice c -> bchoice (psch s pairs c).
+Proof.
+  intros s pairs c Hc l. unfold psch. destruct (nth_error (s_l2v s) l) as [v|]; [|apply Hc].
+  destruct (assoc_nat pairs v) as [r|]; [destruct (dfun s r c); lia | apply Hc].
+Qed.
+
+Lemma psch_extends : forall s s' pairs c, WF s -> extends s s' -> pairs_ok s pairs ->
+  ceq (psch s' pairs c) (psch s pairs c).
+Proof.
+  intros s s' pairs c H X F l. unfold psch. rewrite (ext_l2v _ _ X).
+  destruct (nth_error (s_l2v s) l) as [v|]; [|reflexivity].
+  destruct (assoc_nat pairs v) as [r|] eqn:E; [|reflexivity].
+  rewrite (dfun_extends s s' r c H X); [reflexivity|]. apply (F v r). apply assoc_nat_In. exact E.
+Qed.
+
+Lemma psubst_extends : forall s s' pairs phi, WF s -> extends s s' -> pairs_ok s pairs -> cext phi ->
+  forall c, bchoice c -> psubst s' pairs phi c = psubst s pairs phi c.
+Proof.
+  intros s s' pairs phi H X F Xp c Hc. unfold psubst.
+  apply Xp; auto using psch_bchoice. apply psch_extends; assumption.
+Qed.
+
+Lemma psubst_ext : forall s pairs phi phi', (forall c, bchoice c -> phi c = phi' c) ->
+  forall c, bchoice c -> psubst s pairs phi c = psubst s pairs phi' c.
+Proof. intros s pairs phi phi' E c Hc. unfold psubst. apply E. apply psch_bchoice. exact Hc. Qed.
+
+Lemma pairs_ok_extends : forall s s' pairs, extends s s' -> pairs_ok s pairs -> pairs_ok s' pairs.
+Proof. intros s s' pairs X F v r Hin. apply (ext_ref_ok _ _ _ X). apply (F v r Hin). Qed.
+
+(** the level-indexed vector built by [substitute_prepare] agrees with the object *)
+Definition SvOK (s : snap) (sv : list ref) (pairs : list (nat * ref)) : Prop :=
+  Forall (ref_ok s) sv /\ pairs_ok s pairs /\
+  forall c, bchoice c -> ceq (sch s sv c) (psch s pairs c).
+
+Lemma svok_extends : forall s s' sv pairs, WF s -> extends s s' -> SvOK s sv pairs -> SvOK s' sv pairs.
+Proof.
+  intros s s' sv pairs H X [F [P E]]. split; [|split].
+  - eapply Forall_impl; [|exact F]. intros r. apply (ext_ref_ok _ _ _ X).
+  - apply (pairs_ok_extends s s' pairs X P).
+  - intros c Hc l. rewrite (sch_extends s s' sv c H X F l), (psch_extends s s' pairs c H X P l).
+    apply E. exact Hc.
+Qed.
+
 (** ** Variable sets and literal cubes as the algorithms read them *)
 
 (** the levels along the then-children *)
@@ -602,8 +668,8 @@ Qed.
 
 (** ** The cache invariant for all operators of the BDD kind *)
 
-(** registry of substitution objects: id |-> the level-indexed replacement vector *)
-Variable Sg : N -> option (list ref).
+(** registry of substitution objects: id |-> the pairs (variable, replacement) *)
+Variable Sg : N -> option (list (nat * ref)).
 
 Definition qf (q : quantifier) : bool -> bool -> bool := eval_bop (qop q).
 
@@ -616,8 +682,8 @@ Definition qentry_ok (s : snap) (code : N) (args : list ref) (r : ref) : Prop :=
      exists phi psi L, Den s f phi /\ Den s g psi /\ VChain s vars L /\
        Den s r (qlevs (qf q) L (fun c => eval_bop o (phi c) (psi c)))) /\
   (forall id f, code = code_subst id -> args = [f] ->
-     exists sv phi, Sg id = Some sv /\ Forall (ref_ok s) sv /\ Den s f phi /\
-       Den s r (csubst s sv phi)).
+     exists pairs phi, Sg id = Some pairs /\ pairs_ok s pairs /\ Den s f phi /\
+       Den s r (psubst s pairs phi)).
 
 Definition QCacheOK (s : snap) (c : C) : Prop :=
   CacheOK cget s c /\ forall code args r, cget c code args = Some r -> qentry_ok s code args r.
@@ -638,12 +704,12 @@ Proof.
   - intros q o f g vars Hc Ha. destruct (Q3 q o f g vars Hc Ha) as [phi [psi [L [D [D' [V Dr]]]]]].
     exists phi, psi, L. split; [eapply den_extends; eauto|]. split; [eapply den_extends; eauto|].
     split; [eapply vchain_extends; eauto|]. eapply den_extends; eauto.
-  - intros id f Hc Ha. destruct (Q4 id f Hc Ha) as [sv [phi [Es [F [D Dr]]]]].
-    exists sv, phi. split; [exact Es|]. split; [eapply forall_ref_ok_extends; eauto|].
+  - intros id f Hc Ha. destruct (Q4 id f Hc Ha) as [pairs [phi [Es [F [D Dr]]]]].
+    exists pairs, phi. split; [exact Es|]. split; [eapply pairs_ok_extends; eauto|].
     split; [eapply den_extends; eauto|].
-    apply (den_ext s' r (csubst s sv phi)); [eapply den_extends; eauto|].
+    apply (den_ext s' r (psubst s pairs phi)); [eapply den_extends; eauto|].
     intros c0 Hc0. symmetry.
-    apply (csubst_extends s s' sv phi (bo_wf s B) X F (den_cext s f phi (bo_wf s B) D) c0 Hc0).
+    apply (psubst_extends s s' pairs phi (bo_wf s B) X F (den_cext s f phi (bo_wf s B) D) c0 Hc0).
 Qed.
 
 (** codes of the apply algorithms carry no obligation here *)
@@ -767,16 +833,16 @@ Proof.
   - intros id f' Hc. exfalso. apply (aq_not_subst q o id Hc).
 Qed.
 
-Lemma qentry_subst : forall s id f r sv phi,
-  Sg id = Some sv -> Forall (ref_ok s) sv -> Den s f phi -> Den s r (csubst s sv phi) ->
+Lemma qentry_subst : forall s id f r pairs phi,
+  Sg id = Some pairs -> pairs_ok s pairs -> Den s f phi -> Den s r (psubst s pairs phi) ->
   qentry_ok s (code_subst id) [f] r.
 Proof.
-  intros s id f r sv phi Es F D Dr. split; [|split; [|split]].
+  intros s id f r pairs phi Es F D Dr. split; [|split; [|split]].
   - intros q' f' vars' Hc. exfalso. apply (qcode_not_subst q' id). auto.
   - intros f' vars' Hc. exfalso. apply (restrict_not_subst id). auto.
   - intros q' o' f' g' vars' Hc. exfalso. apply (aq_not_subst q' o' id). auto.
   - intros id' f' Hc Ha. apply code_subst_inj in Hc. subst id'. inversion Ha; subst.
-    exists sv, phi. auto.
+    exists pairs, phi. auto.
 Qed.
 
 (** ** Results *)
